@@ -37,6 +37,10 @@ def replay(g, o, assigns, path):
     from vlib import replay as RP
     if g.name.startswith("bk."):
         return RP.run_native(PROP, RP.src("C10_bkldlt_replay.cpp"), timeout=900)
+    if "cshift" in g.name and "exceptional exit" in (o.get("desc") or ""):
+        r0 = RP.run_native(PROP, RP.src("C14_cshift_exc_replay.cpp"), timeout=900, name="replay_cshift")
+        if r0.get("reproduced"):
+            return r0
     r = RP.run_native(PROP, RP.src("solver_replay.cpp"), args=["history"], timeout=900)
     if not r.get("reproduced"):
         r2 = RP.run_native(PROP, RP.src("C02_cshift_pairs_replay.cpp"), args=[2], timeout=600, name="replay2")
